@@ -294,6 +294,15 @@ func (b *batch) render() *stageFailure {
 		}
 		return nil
 	}
+	// package-level variables live in their own file (the generated programs refer to them from other
+	// files); the file uses the API itself so that the compiler processes it
+	gl := &Program{Name: "GVfile", Profile: "globals"}
+	gl.Decls = []*Decl{{Kind: "raw", Raw: "var GV0, GV1, GV2 int\n\n$GEN{GVTouch(a int)}{int}{\n\t$YIELD{a}\n\t$RET\n}"}}
+	for _, m := range []struct{ mode, dir string }{{"S", "s"}, {"R", "r"}} {
+		if f := write(m.mode, m.dir, "gv.go", styleAt(2), []*Program{gl}); f != nil {
+			return f
+		}
+	}
 	names := []string{"p.go", "q.go", "r.go", "t.go"}
 	for _, m := range []struct{ mode, dir string }{{"S", "s"}, {"R", "r"}} {
 		for k := 0; k < nfiles && k < len(names); k++ {
@@ -593,7 +602,7 @@ func (t *tools) runBatchX(progs []*Program, opts batchOpts, reducing bool) (*bat
 		return res, b
 	}
 	res.compileT = time.Since(t0)
-	for _, fn := range []string{"p.go", "q.go", "r.go", "t.go", "p_test.go"} {
+	for _, fn := range []string{"p.go", "q.go", "r.go", "t.go", "p_test.go", "gv.go"} {
 		if o, err := os.ReadFile(filepath.Join(b.dir, "o", fn)); err == nil {
 			res.outO += string(o)
 		}
